@@ -273,6 +273,33 @@ def rule_F4(ctx, R):
             res.bad(Violation("F4", fn["path"], name, "PoisonFlag::%s %s" % (name, bad), *_floc(fn)))
         else:
             res.ok("PoisonFlag::" + name)
+    # a fresh flag is clear: the constructor(s) of the flag type store `false`
+    if ctx.A.flag_adt:
+        for f in F.fns:
+            if "inputs" not in f or f["inputs"] or "mir" not in f:
+                continue
+            out = f["output"]
+            if not (out["k"] == "adt" and out["path"] == ctx.A.flag_adt):
+                continue
+            if (f.get("trait_item") or "").startswith("std::default::Default"):
+                res.ok(f["path"] + " (Default: AtomicBool::default() is false)")
+                continue
+            try:
+                paths = I.analyze(f)
+            except Exception as e:
+                res.undecided(f["path"], "analysis", str(e), *_floc(f))
+                continue
+            bad = None
+            for p in paths:
+                if p.kind != "ret":
+                    continue
+                news = [e for e in _calls(p) if "atomic" in e["def"].lower() and e["def"].endswith("::new")]
+                if news and news[0]["argv"][0] != ("const", False):
+                    bad = "starts as %r" % (news[0]["argv"][0],)
+            if bad:
+                res.bad(Violation("F4", f["path"], "initial-state", "a fresh poison/kill flag %s: locks are born poisoned/killed" % bad, *_floc(f)))
+            else:
+                res.ok(f["path"] + " starts clear")
     res.need(10, "poison call sites + flag primitives")
     return res
 
